@@ -181,6 +181,7 @@ def native_replay(plan, j, inputs, rdir):
     if rc != 0:
         return None, 'native link failed: ' + out[-1500:]
     try:
+        os.environ['ASAN_OPTIONS'] = 'detect_leaks=0'
         rc, out = run([exe], timeout=20)
     except subprocess.TimeoutExpired:
         return True, 'native run did not terminate within 20 s (hang reproduced)'
